@@ -1,21 +1,65 @@
-(* C15 -- placeholder until Proofs/CacheFS.v lands *)
-From Tola Require Import Py.Base Model.CacheFS.
+(* C15 -- A stale, partial or concurrently rewritten index cache is never
+   silently used.  Only statements, each closed by [exact] of a lemma from
+   Proofs/CacheFS.v.  The theorems are about the protocol model
+   (Model/CacheFS.v: any number of processes, any interleaving at
+   file-operation granularity, crashes at any point, any history of FASTA
+   rewrites / cache deletions / clock ticks); that the code in /repo follows
+   this protocol is checked on every run by validating the operation traces of
+   real executions against the model. *)
+From Tola Require Import Py.Base Model.CacheFS Proofs.CacheFS.
 
-(* the protocol of the pinned commit (cache files truncated and rewritten in
-   place) lets a reader load a half-written cache: a second process passes both
-   freshness checks after the first has opened (truncated) the .agp *)
-Lemma C15_legacy_race_refuted :
-  match run false init_world
-    [HTick; HSpawn; HSpawn;
-     HOp 0 OExistsFasta; HOp 0 OStatFasta; HOp 0 (OExists Fai); HOp 0 OReadFasta;
-     HOp 0 (OExists Fai); HOp 0 (OOpenWrite Fai); HOp 0 (OWriteBlock Fai); HOp 0 (OClose Fai);
-     HOp 0 (OExists Agp); HOp 0 (OOpenWrite Agp);
-     HTick;
-     HOp 1 OExistsFasta; HOp 1 OStatFasta; HOp 1 (OExists Fai); HOp 1 (OStat Fai);
-     HOp 1 (OExists Agp); HOp 1 (OStat Agp);
-     HOp 1 (OOpenRead Fai); HOp 1 (ORead Fai); HOp 1 (OOpenRead Agp); HOp 1 (ORead Agp)] with
-  | Some w => world_ok w = false
-  | None => False
-  end.
-Proof. vm_compute. reflexivity. Qed.
+(* whenever an operation makes a process complete auto_load, what it holds is
+   exactly the index and assembly of the FASTA's current content *)
+Theorem C15_safety_at_completion : forall w pid o w' p',
+  reachable w -> env_step true w (HOp pid o) = Some w' ->
+  nth_error (w_procs w') pid = Some p' -> pr_pc p' = PDone ->
+  (match nth_error (w_procs w) pid with Some p => pr_pc p <> PDone | None => True end) ->
+  proc_ok (w_fs w') p' = true.
+Proof. exact safety_at_completion. Qed.
+Print Assumptions C15_safety_at_completion.
+
+(* a reader never observes a half-written cache file, and a cache file strictly
+   newer than the FASTA was derived from its current content *)
+Theorem C15_visible_files_complete : forall w f pl,
+  reachable w -> get_file (w_fs w) f = Some pl ->
+  p_complete pl = true /\ (p_stamp pl > fasta_stamp (w_fs w) -> p_content pl = fasta_content (w_fs w)).
+Proof. exact visible_files_complete. Qed.
+Print Assumptions C15_visible_files_complete.
+
+(* cache files that are missing or not strictly newer than the FASTA are rebuilt ... *)
+Theorem C15_check_rejects_stale : forall s p f pl s' p',
+  pr_pc p = PCheck f true -> get_file s f = Some pl -> p_stamp pl <= pr_fasta_stamp p ->
+  step true s p (OStat f) = Some (s', p') -> pr_pc p' = PIndexRead.
+Proof. exact check_rejects_stale. Qed.
+Print Assumptions C15_check_rejects_stale.
+Theorem C15_check_rejects_missing : forall s p f s' p',
+  pr_pc p = PCheck f false -> get_file s f = None ->
+  step true s p (OExists f) = Some (s', p') -> pr_pc p' = PIndexRead.
+Proof. exact check_rejects_missing. Qed.
+Print Assumptions C15_check_rejects_missing.
+
+(* ... both together *)
+Theorem C15_indexing_installs_both : forall w pid w' p p',
+  reachable w -> nth_error (w_procs w) pid = Some p -> pr_pc p = PReplace Agp ->
+  env_step true w (HOp pid (OReplace Agp)) = Some w' -> nth_error (w_procs w') pid = Some p' ->
+  pr_pc p' = PDone
+  /\ (exists a b, fai (w_fs w') = Some a /\ agp (w_fs w') = Some b /\ p_complete a = true /\ p_complete b = true
+        /\ p_content a = fasta_content (w_fs w') /\ p_content b = fasta_content (w_fs w')).
+Proof. exact indexing_installs_both. Qed.
+Print Assumptions C15_indexing_installs_both.
+
+(* the protocol of the pinned commit (truncate and rewrite in place) is refuted
+   by a crash history and by a race history (repaired by a fix: commit) *)
+Theorem C15_legacy_crash_refuted : exists h w, run false init_world h = Some w /\ world_ok w = false.
+Proof. exact legacy_crash_refuted. Qed.
+Print Assumptions C15_legacy_crash_refuted.
+Theorem C15_legacy_race_refuted : exists h w, run false init_world h = Some w /\ world_ok w = false.
+Proof. exact legacy_race_refuted. Qed.
 Print Assumptions C15_legacy_race_refuted.
+
+(* non-vacuity: two racing processes under the repaired protocol, both done and correct *)
+Theorem C15_atomic_race_safe : exists w,
+  run true init_world atomic_race_history = Some w /\ world_ok w = true
+  /\ outcome w = [(PDone, HGood 1, HGood 1); (PDone, HGood 1, HGood 1)].
+Proof. exact atomic_race_safe. Qed.
+Print Assumptions C15_atomic_race_safe.
